@@ -19,7 +19,7 @@ FUNCS = ['backends.libwayland_debug_output.parse:into_sink', 'backends.libwaylan
 POOL = [
     ('msg', '[1000.100]  -> wl_display@1.get_registry(new id wl_registry@2)', 'get_registry'),
     ('msg', '[1000.200]  -> wl_display@1.sync(new id wl_callback@3)', 'sync'),
-    ('msg', '[1000.300] wl_display@1.delete_id(3)', 'delete_id'),
+    ('msg', '[3700000.300] wl_display@1.delete_id(3)', 'delete_id'),        # more than an hour after the creation: long lifespans, large times
     ('msg', '[1000.400] zz_unknown_iface@7.anything(1, "a, b", nil)', 'anything'),
     ('msg', '[1000.500]  -> wl_display@1.frobnicate(3)', 'frobnicate'),            # name not in the shipped description of a known interface
     ('msg', '[1000.600] wl_display@1.error(wl_display@1, 2, "x", 4, 5)', 'error'),   # more arguments than described
@@ -29,6 +29,7 @@ POOL = [
     ('msg', '[1000.770]  -> zz_unknown_iface@7.make(new id [unknown]@44, 1)', 'make'),             # an untyped new id outside wl_registry.bind
     ('msg', '[1000.780]  -> zz_unknown_iface@7.set_title("")', 'set_title'),                       # a message the connection-naming code chokes on
     ('text', 'hello from the program', None),
+    ('text', 'C:\\dir\\x "q" \'s\' tab\tin \x07 bell \x1b[1m esc', None),     # backslashes, quotes, inner tab, control characters: passed through unaltered
     ('text', '', None),
     ('text', '   \t ', None),
     ('text', '  indented chatter [not a message] (really)  ', None),
@@ -130,7 +131,9 @@ def stream(ctx, case):
     parse.into_sink(f, output, mgr)
     # ---- the expected item sequence
     items = list(out.items)
-    is_notice = lambda s: s.startswith('New ') or s.startswith('Closed ')
+    # notices: connection opened / closed, and the separator the live view prints before a message that comes more than a second after the
+    # previous one (C16's subject; it belongs to the message line that follows it)
+    is_notice = lambda s: s.startswith('New ') or s.startswith('Closed ') or (s.lstrip().startswith('\u2500\u2500\u2500\u2524') and s.rstrip().endswith('\u251c\u2500\u2500\u2500'))
     body = [(k, s) for k, s in enumerate(items) if not is_notice(s)]
     expected = []
     for i in idx:
@@ -203,10 +206,14 @@ def passthrough_flow(ctx, case):
 
         def message(self, *a):
             Sink.calls += 1
+    blank = ctx.choose([False, True], 'only_whitespace')
     if ctx.symbolic:
-        line = symx.SStr('line', nonempty=True)       # a read that returned something (possibly only a newline / blanks)
+        class Line(symx.SStr):
+            def strip(self, *a):
+                return symx.SStr('line.strip()', nonempty=not blank)
+        line = Line('line', nonempty=True)       # a read that returned something (possibly only a newline / blanks)
     else:
-        line = '  some text \n' if ctx.fresh_bool('line.strip()_nonempty') else ' \n'
+        line = ' \n' if blank else '  some \\ text\twith \' " quotes \u00e9 \n'
     saved = parse.WlPatterns.instance
     parse.WlPatterns.instance = P()
     try:
@@ -221,7 +228,7 @@ def passthrough_flow(ctx, case):
     if supress:
         ctx.check('--supress: nothing shown', out.items == [])
     else:
-        stripped = '<text:line.strip()>' if ctx.symbolic else line.strip()
+        stripped = symx.opaque_placeholder('line.strip()') if ctx.symbolic else line.strip()
         ctx.check('the item is the prefix plus exactly the stripped line', out.items == ['       |  ' + stripped])
 
 
